@@ -8,6 +8,7 @@
 // USAGE
 //   KData d = make_data(ndim, nvar, klayout, kupat, kverr, drift_fext(kdrift));   // point targets (set_targets)
 //   set_grid(d, kdisc);                                                             // optional: grid target + block discretisation
+//   d = scaled(d, ls, vs) with KBuilt(d, ..., ls, vs)  (common rescaling of all lengths / all values)
 //   d = permuted(d, perm) / translated(d, t) / edit d.z, d.x, d.tx ... freely       // optional transformations
 //   if (!combo_valid(ndim, kmodel, kdrift, kneigh)) skip;                           // documented-invalid combinations
 //   KBuilt b(d, kmodel, kdrift, kneigh);                                            // owns dbin, dbout, model, neigh
@@ -257,6 +258,23 @@ inline KData translated(const KData& d, const VD& t)
   return r;
 }
 
+// all lengths multiplied by ls (coordinates of data and targets, grid mesh/origin) and all values by vs (data; measurement
+// error variances by vs^2).  Use powers of two: exact.  The model / neighbourhood must be built with the same factors
+// (make_model(..., ls, vs), make_neigh(..., ls), KBuilt(d, ..., ls, vs)).
+inline KData scaled(const KData& d, double ls, double vs)
+{
+  KData r = d;
+  for (int k = 0; k < d.ndim; k++)
+  {
+    for (double& a : r.x[k]) if (!FFFF(a)) a *= ls;
+    for (double& a : r.tx[k]) a *= ls;
+    if (d.grid) { r.dx[k] *= ls; r.x0[k] *= ls; }
+  }
+  for (auto& zz : r.z) for (double& a : zz) if (!FFFF(a)) a *= vs;
+  for (auto& vv : r.v) for (double& a : vv) if (!FFFF(a)) a *= vs * vs;
+  return r;
+}
+
 // ------------------------------------------------------------------------------------------------- gstlearn objects
 inline void set_space(int ndim)
 {
@@ -345,7 +363,8 @@ inline int drift_nbfl(int ndim, int kdrift)
   int nb = o == 0 ? 1 : o == 1 ? 1 + ndim : 1 + ndim + ndim * (ndim + 1) / 2;
   return nb + (drift_fext(kdrift) ? 1 : 0);
 }
-inline Model* make_model(int ndim, int nvar, int kmodel, int kdrift)
+// ls: factor on all ranges; vs: factor on the values (sills x vs^2, known means x vs)
+inline Model* make_model(int ndim, int nvar, int kmodel, int kdrift, double ls = 1., double vs = 1.)
 {
   set_space(ndim);
   static const double RATIO[3] = {1, .5, .75};
@@ -355,20 +374,20 @@ inline Model* make_model(int ndim, int nvar, int kmodel, int kdrift)
   {
     const Struct& s = ss[j];
     VectorDouble ranges(ndim), angles;
-    for (int k = 0; k < ndim; k++) ranges[k] = s.range * (s.aniso ? RATIO[k] : 1.);
+    for (int k = 0; k < ndim; k++) ranges[k] = ls * s.range * (s.aniso ? RATIO[k] : 1.);
     if (s.rot && ndim >= 2)
     {
       angles = VectorDouble(ndim, 0.);
       if (s.rot == 1) { angles[0] = 30; if (ndim == 3) { angles[1] = 20; angles[2] = 10; } }
       else angles[0] = 90;
     }
-    VectorDouble sills = sill_matrix(nvar, s.sill, (int)(j % 2));
-    if (m == nullptr) m = Model::createFromParam(s.type, s.range, s.sill, 1., ranges, sills, angles);
-    else m->addCovFromParam(s.type, s.range, s.sill, 1., ranges, sills, angles);
+    VectorDouble sills = sill_matrix(nvar, s.sill * vs * vs, (int)(j % 2));
+    if (m == nullptr) m = Model::createFromParam(s.type, ls * s.range, s.sill * vs * vs, 1., ranges, sills, angles);
+    else m->addCovFromParam(s.type, ls * s.range, s.sill * vs * vs, 1., ranges, sills, angles);
   }
   // drift AFTER the covariances (addCovFromParam rebuilds the context, hence resets the means)
   if (drift_known_mean(kdrift))
-    for (int v = 0; v < nvar; v++) m->setMean(known_mean(kdrift, v), v);
+    for (int v = 0; v < nvar; v++) m->setMean(vs * known_mean(kdrift, v), v);
   else
     m->setDriftIRF(drift_order(kdrift), drift_fext(kdrift) ? 1 : 0);
   return m;
@@ -383,7 +402,7 @@ inline const char* neigh_name(int k)
   static const char* N[7] = {"unique", "moving-nmaxi2", "moving-nmaxi3", "moving-radius3", "moving-4sectors", "moving-nmini3-radius4", "moving-aniso-rot"};
   return N[k];
 }
-inline ANeigh* make_neigh(int ndim, int k)
+inline ANeigh* make_neigh(int ndim, int k, double ls = 1.)
 {
   set_space(ndim);
   switch (k)
@@ -391,16 +410,16 @@ inline ANeigh* make_neigh(int ndim, int k)
     case 0: return NeighUnique::create();
     case 1: return NeighMoving::create(false, 2);
     case 2: return NeighMoving::create(false, 3);
-    case 3: return NeighMoving::create(false, 1000, 3.);
+    case 3: return NeighMoving::create(false, 1000, 3. * ls);
     case 4: return NeighMoving::create(false, 1000, TEST, 1, 4, 1);
-    case 5: return NeighMoving::create(false, 1000, 4., 3);
+    case 5: return NeighMoving::create(false, 1000, 4. * ls, 3);
     default:
     {
       static const double CO[3] = {1, .5, .75};
       VectorDouble coeffs(ndim), angles(ndim, 0.);
       for (int a = 0; a < ndim; a++) coeffs[a] = CO[a];
       angles[0] = 30;
-      return NeighMoving::create(false, 3, 4., 1, 1, ITEST, coeffs, angles);
+      return NeighMoving::create(false, 3, 4. * ls, 1, 1, ITEST, coeffs, angles);
     }
   }
 }
@@ -411,13 +430,13 @@ struct KBuilt
   Db* dbin = nullptr; Db* dbout = nullptr; Model* model = nullptr; ANeigh* neigh = nullptr;
   EKrigOpt calcul = EKrigOpt::POINT;
   VectorInt ndiscs;
-  KBuilt(const KData& d, int kmodel, int kdrift, int kneigh)
+  KBuilt(const KData& d, int kmodel, int kdrift, int kneigh, double ls = 1., double vs = 1.)
   {
     set_space(d.ndim);
     dbin = make_dbin(d);
     dbout = make_dbout(d);
-    model = make_model(d.ndim, d.nvar, kmodel, kdrift);
-    neigh = make_neigh(d.ndim, kneigh);
+    model = make_model(d.ndim, d.nvar, kmodel, kdrift, ls, vs);
+    neigh = make_neigh(d.ndim, kneigh, ls);
     if (d.grid && !d.ndiscs.empty()) { calcul = EKrigOpt::BLOCK; ndiscs = VectorInt(d.ndiscs.begin(), d.ndiscs.end()); }
   }
   KBuilt(const KBuilt&) = delete;
